@@ -106,6 +106,15 @@ def check_pack(out, t, bits, tag):
         return out.fail(f"{tag}/unpack/raises:{u.type}", u.text)
     if u.dtype != torch.uint8 or tuple(u.shape) != tuple(t.shape) or not torch.equal(u, t):
         out.fail(f"{tag}/roundtrip", f"unpack(pack(t)) != t (R={t.shape[0]}, R mod {vpi} = {t.shape[0] % vpi})")
+    # what unpack() returned belongs to the caller: updating it in place must not change what the packed tensor holds
+    if u.numel():
+        u.add_(1).bitwise_and_((1 << bits) - 1)
+        u2 = cut(p.unpack)
+        if isinstance(u2, Raised) or not torch.equal(u2, t):
+            out.fail(f"{tag}/unpack-after-caller-update", "a second unpack() no longer returns the packed values after the first result was updated in place")
+        r2 = cut(lambda: (p + 0))
+        if isinstance(r2, Raised) or not torch.equal(r2, t):
+            out.fail(f"{tag}/op-after-caller-update", "an op on the packed tensor no longer acts on the packed values after an earlier unpack() result was updated in place")
     payload_keep = payload.clone()
     check_routes(out, payload, bits, tag)
     if not torch.equal(payload, payload_keep):
